@@ -10,7 +10,6 @@ def str (s : Str) : Json := Json.str (String.ofList s)
 
 def errName : Err → String
   | .valueError => "ValueError"
-  | .typeError => "TypeError"
   | .indexError => "IndexError"
 
 def exc (e : Err) : Json := Json.mkObj [("exc", Json.str (errName e))]
@@ -46,6 +45,9 @@ def collectH : Handler := mapStrs "srcs" fun s =>
   match collectHints s with
   | .ok (a, d) => Json.mkObj [("addition", schedJson a), ("deletion", schedJson d)]
   | .error e => exc e
+
+def normLineH : Handler := mapStrs "lines" fun s => str (normLine s)
+def trimEndsH : Handler := mapStrs "srcs" fun s => str (trimEnds s)
 
 def removeHintsH : Handler := mapStrs "srcs" fun s => str (removeHints s)
 
@@ -91,38 +93,50 @@ def parseHint (j : Json) : Except String Hint := do
   let l ← getStr j "label"
   pure ⟨m, l.toList, { plus := getBoolD j "plus" false, uni := getBoolD j "uni" false, gap := getNatD j "gap" 0 }⟩
 
-def parseLine (j : Json) : Except String Line :=
+def parseMarker (j : Json) : MarkerStyle :=
+  match j.getObjVal? "marker" with
+  | .ok m =>
+    let capsMask := getNatD m "caps" 0
+    { sp1 := getNatD m "sp1" 1, caps := fun k => capsMask.testBit k, sp2 := getNatD m "sp2" 0, after := getNatD m "after" 1 }
+  | .error _ => {}
+
+def parseLine (j : Json) : Except String (Line × MarkerStyle) :=
   match j.getObjValAs? String "isolated" with
-  | .ok l => pure (.isolated (getNatD j "indent" 0) l.toList)
+  | .ok l => pure (.isolated (getNatD j "indent" 0) l.toList, parseMarker j)
   | .error _ => do
     let code ← getStr j "code"
     let hs ← (← getArr j "hints").toList.mapM parseHint
-    pure (.code { code := code.toList, pad := getNatD j "pad" 0, hints := hs })
+    pure (.code { code := code.toList, pad := getNatD j "pad" 0, hints := hs }, parseMarker j)
 
 def allLabels (d : Decorated) : List Str :=
   dedup (((codeLines d).flatMap fun c => c.hints.map (·.label)) ++ wholeLabels d)
 
 def sspanJson (p : SSpan) : Json := Json.arr #[Json.bool p.1, Json.num p.2.1, Json.num p.2.2]
 
-/-- `c12.spec_decorate`: the text of a decorated program, whether the hypotheses of C12_roundtrip
-hold of it, and what its hints say, label by label (`balSpans`, `noTie`). -/
+/-- `c12.spec_decorate`: the text of a decorated program (markers spelled as each line says),
+whether the hypotheses of C12_roundtrip hold of it, and what its hints say, label by label, on the
+normalised program (`normalised`, `events`, `balSpans`, `noTie`). -/
 def specDecorate : Handler := fun j => do
   let d ← (← getArr j "lines").toList.mapM parseLine
-  let labels := allLabels d
+  let plain := d.map Prod.fst
+  let nd := normalised d
+  let labels := allLabels nd
   let per := labels.map fun L =>
-    let ev := events d L
+    let ev := events nd L
     Json.mkObj [("label", str L), ("notie", Json.bool (noTie ev)),
       ("spans", match balSpans ev with
         | some r => Json.arr (r.map sspanJson).toArray
         | none => Json.null)]
-  pure (Json.mkObj [("src", str (decorate d)), ("hygienic", Json.bool (hygienic d)),
-    ("base", str (joinNL (base d))), ("nlines", Json.num (codeLines d).length), ("labels", Json.arr per.toArray)])
+  let linesOk := (codeLines plain).all okCode && (wholeLabels plain).all cleanLabel && looseOk plain
+  pure (Json.mkObj [("src", str (decorateS d)), ("hygienic", Json.bool (linesOk && hygienic nd)),
+    ("lines_ok", Json.bool linesOk),
+    ("base", str (joinNL (base nd))), ("nlines", Json.num (codeLines nd).length), ("labels", Json.arr per.toArray)])
 
 /-- `c12.spec_malformed`: for each source, whether the hint tokens of its centrifugated text are
 malformed (`malformedB`) and tie-free (`tieFreeB`). -/
 def specMalformed : Handler := mapStrs "srcs" fun s =>
-  match centrifugate s with
-  | .ok c => Json.mkObj [("malformed", Json.bool (malformedB (hintToks c))), ("tiefree", Json.bool (tieFreeB (hintToks c)))]
+  match centrifugate (prepare s) with
+  | .ok c => Json.mkObj [("malformed", Json.bool (malformedB (hintToks c)))]
   | .error e => exc e
 
 /-! ### Parser glue -/
@@ -197,7 +211,7 @@ def errorSpanH : Handler := mapStrs "srcs" fun s =>
 def handlers : List (String × Handler) :=
   [("c12.get_program", getProgramH), ("c12.centrifugate", centrifugateH), ("c12.collect", collectH),
    ("c12.remove_hints", removeHintsH), ("c12.match_label", matchLabelH), ("c12.isolated", isolatedH),
-   ("c12.hint_tokens", hintTokensH), ("c12.spec_decorate", specDecorate), ("c12.spec_malformed", specMalformed),
+   ("c12.hint_tokens", hintTokensH), ("c12.norm_line", normLineH), ("c12.trim_ends", trimEndsH), ("c12.spec_decorate", specDecorate), ("c12.spec_malformed", specMalformed),
    ("c12.glue", glueH), ("c12.spec_counts", specCounts), ("c12.get_bindings", getBindingsH),
    ("c12.error_span", errorSpanH)]
 
